@@ -6,7 +6,8 @@ From NoKV Require Import Base.Bytes Model.Percolator Model.KvApply Spec.PercoSpe
 Import ListNotations.
 Local Open Scope N_scope.
 
-Inductive klabel := KPrewrite (start : N) | KCommit (start cv : N) | KRollback (start : N) | KPush (start : N).
+Inductive klabel := KPrewrite (start : N) | KCommit (start cv : N) | KRollback (start : N) | KPush (start : N)
+                   | KFinish (start : N).   (* status check removing the lock a committed transaction left behind *)
 
 Definition push_min_commit (l : llock) (mc : N) : llock :=
   {| ll_rec := {| l_primary := l_primary (ll_rec l); l_ts := l_ts (ll_rec l); l_ttl := l_ttl (ll_rec l);
@@ -22,7 +23,10 @@ Inductive ktrans : klabel -> kstate -> kstate -> Prop :=
 | KT_rollback ks start : ktrans (KRollback start) ks (l_rollback_key ks start)
 | KT_push ks l mc :
     ks_lock ks = Some l ->
-    ktrans (KPush (l_ts (ll_rec l))) ks {| ks_lock := Some (push_min_commit l mc); ks_recs := ks_recs ks |}.
+    ktrans (KPush (l_ts (ll_rec l))) ks {| ks_lock := Some (push_min_commit l mc); ks_recs := ks_recs ks |}
+| KT_finish ks l r :
+    ks_lock ks = Some l -> find_start (ks_recs ks) (l_ts (ll_rec l)) = Some r -> lr_kind r <> OpRollback ->
+    ktrans (KFinish (l_ts (ll_rec l))) ks {| ks_lock := None; ks_recs := ks_recs ks |}.
 
 Definition label_ok (r : request) (lab : klabel) : Prop :=
   match r, lab with
@@ -33,6 +37,7 @@ Definition label_ok (r : request) (lab : klabel) : Prop :=
   | RResolve _ s cv, KRollback s' => s' = s /\ cv = 0
   | RCheck _ lts _ _ _, KRollback s' => s' = lts
   | RCheck _ lts _ _ _, KPush s' => s' = lts
+  | RCheck _ lts _ _ _, KFinish s' => s' = lts
   | _, _ => False
   end.
 
@@ -118,11 +123,16 @@ Lemma l_check_reach a primary lts cur caller rb :
 Proof.
   unfold l_check. destruct (ks_lock (ls_at a primary)) as [l|] eqn:Hl.
   - destruct (negb (l_ts (ll_rec l) =? lts)) eqn:Hts; [apply areach_refl|].
-    destruct (lock_expired (ll_rec l) cur).
-    + apply areach_lupd. exists (KRollback lts). split; [reflexivity | constructor].
-    + destruct ((0 <? caller) && (l_min_commit (ll_rec l) <? wrap64 (caller + 1))); [|apply areach_refl].
-      apply areach_lupd. exists (KPush (l_ts (ll_rec l))). split; [cbn; lia|].
-      apply (KT_push _ l (wrap64 (caller + 1)) Hl).
+    destruct (find_start (ks_recs (ls_at a primary)) lts) as [rf|] eqn:Hff;
+      [destruct (op_eqb (lr_kind rf) OpRollback) eqn:Hkf|].
+    2: { apply areach_lupd. exists (KFinish (l_ts (ll_rec l))). split; [cbn; lia|].
+         apply (KT_finish _ l rf Hl); [assert (E : l_ts (ll_rec l) = lts) by lia; now rewrite E|].
+         intro E. rewrite E in Hkf. discriminate. }
+    all: destruct (lock_expired (ll_rec l) cur);
+      [ apply areach_lupd; exists (KRollback lts); split; [reflexivity | constructor]
+      | destruct ((0 <? caller) && (l_min_commit (ll_rec l) <? wrap64 (caller + 1))); [|apply areach_refl];
+        apply areach_lupd; exists (KPush (l_ts (ll_rec l))); split; [cbn; lia|];
+        apply (KT_push _ l (wrap64 (caller + 1)) Hl) ].
   - destruct (find_start (ks_recs (ls_at a primary)) lts) as [r|].
     + destruct (op_eqb (lr_kind r) OpRollback); apply areach_refl.
     + destruct rb; [|apply areach_refl].
@@ -209,7 +219,7 @@ Qed.
 
 Lemma ktrans_inv2 lab x y : ktrans lab x y -> ks_inv2 x -> ks_inv2 y.
 Proof.
-  intros T HJ. destruct T as [ks primary start ttl mc m ks' Hp | ks k l cv ks' Hl Hle Hc | ks start | ks l mc Hl].
+  intros T HJ. destruct T as [ks primary start ttl mc m ks' Hp | ks k l cv ks' Hl Hle Hc | ks start | ks l mc Hl | ks l rf Hl Hff Hkf].
   - apply prewrite_key_success in Hp as (Hbelow & Hop & _ & Hrecs & l' & Hl' & Hts & Hkind).
     constructor; rewrite ?Hrecs.
     + apply (J_le _ HJ).
@@ -224,7 +234,7 @@ Proof.
     destruct (cv <? l_min_commit (ll_rec l)); [discriminate|].
     destruct (find_start (ks_recs ks) (l_ts (ll_rec l))) as [r|] eqn:Hf.
     + destruct (op_eqb (lr_kind r) OpRollback); [discriminate|].
-      destruct (lr_ts r =? cv); inversion Hc; subst ks'; [exact HJ|].
+      inversion Hc; subst ks'.
       constructor; cbn [ks_lock ks_recs]; try discriminate;
         [apply (J_le _ HJ) | apply (J_rb _ HJ) | apply (J_nodup _ HJ) | apply (J_disjoint _ HJ)].
     + inversion Hc; subst ks'. clear Hc.
@@ -272,6 +282,8 @@ Proof.
     + intros l0 r E Hr. inversion E; subst l0. cbn. now apply (J_lock_fresh _ HJ l r Hl).
     + intros l0 r E Hr Hk. inversion E; subst l0. cbn. now apply (J_lock_above _ HJ l r Hl).
     + intros l0 E. inversion E; subst l0. cbn. now apply (J_lock_kind _ HJ l Hl).
+  - constructor; cbn [ks_lock ks_recs]; try discriminate;
+      [apply (J_le _ HJ) | apply (J_rb _ HJ) | apply (J_nodup _ HJ) | apply (J_disjoint _ HJ)].
 Qed.
 
 Definition Inv2 (a : lstate) : Prop := forall k, ks_inv2 (ls_at a k).
@@ -305,18 +317,19 @@ Lemma rb_persist lab x y s :
   (forall s' cv, lab = KCommit s' cv -> cv <> s) -> rolled_back y s.
 Proof.
   intros HJ T [r (Hr & Hs & Hk)] Hlab.
-  destruct T as [ks primary start ttl mc m ks' Hp | ks k l cv ks' Hl Hle Hc | ks start | ks l mc Hl].
+  destruct T as [ks primary start ttl mc m ks' Hp | ks k l cv ks' Hl Hle Hc | ks start | ks l mc Hl | ks l rf Hl Hff Hkf].
   - apply prewrite_key_success in Hp as (_ & _ & _ & Hrecs & _). exists r. now rewrite Hrecs.
   - unfold l_commit_key in Hc. destruct (cv <? l_min_commit (ll_rec l)); [discriminate|].
     destruct (find_start (ks_recs ks) (l_ts (ll_rec l))) as [r0|].
     + destruct (op_eqb (lr_kind r0) OpRollback); [discriminate|].
-      destruct (lr_ts r0 =? cv); inversion Hc; subst ks'; exists r; auto.
+      inversion Hc; subst ks'; exists r; auto.
     + inversion Hc; subst ks'. exists r. cbn [ks_recs]. split; [|auto].
       apply In_add_rec_other; [exact Hr|]. cbn [lr_ts].
       rewrite (J_rb _ HJ r Hr Hk), Hs. intro E. now apply (Hlab _ _ eq_refl).
   - unfold l_rollback_key. destruct (find_start (ks_recs ks) start) as [r0|] eqn:Hf; [exists r; auto|].
     exists r. cbn [ks_recs]. split; [|auto]. apply In_add_rec_other; [exact Hr|]. cbn [lr_ts].
     rewrite (J_rb _ HJ r Hr Hk), Hs. intro E. subst start. now apply (find_start_none _ _ r Hf Hr).
+  - exists r. auto.
   - exists r. auto.
 Qed.
 
@@ -326,18 +339,19 @@ Lemma rec_persist lab x y r :
   (forall s', lab = KRollback s' -> s' <> lr_ts r \/ s' = lr_start r) -> In r (ks_recs y).
 Proof.
   intros HJ T Hr Hc1 Hc2.
-  destruct T as [ks primary start ttl mc m ks' Hp | ks k l cv ks' Hl Hle Hc | ks start | ks l mc Hl].
+  destruct T as [ks primary start ttl mc m ks' Hp | ks k l cv ks' Hl Hle Hc | ks start | ks l mc Hl | ks l rf Hl Hff Hkf].
   - apply prewrite_key_success in Hp as (_ & _ & _ & Hrecs & _). now rewrite Hrecs.
   - unfold l_commit_key in Hc. destruct (cv <? l_min_commit (ll_rec l)); [discriminate|].
     destruct (find_start (ks_recs ks) (l_ts (ll_rec l))) as [r0|] eqn:Hf.
     + destruct (op_eqb (lr_kind r0) OpRollback); [discriminate|].
-      destruct (lr_ts r0 =? cv); inversion Hc; subst ks'; exact Hr.
+      inversion Hc; subst ks'; exact Hr.
     + inversion Hc; subst ks'. cbn [ks_recs]. apply In_add_rec_other; [exact Hr|]. cbn [lr_ts].
       intro E. symmetry in E. specialize (Hc1 _ _ eq_refl E).
       apply (find_start_none _ _ r Hf Hr). now rewrite Hc1.
   - unfold l_rollback_key. destruct (find_start (ks_recs ks) start) as [r0|] eqn:Hf; [exact Hr|].
     cbn [ks_recs]. apply In_add_rec_other; [exact Hr|]. cbn [lr_ts]. intro E.
     destruct (Hc2 _ eq_refl) as [H|H]; [congruence|]. apply (find_start_none _ _ r Hf Hr). congruence.
+  - exact Hr.
   - exact Hr.
 Qed.
 
@@ -547,10 +561,11 @@ Lemma lock_until_finished lab x y l :
   ktrans lab x y -> ks_lock x = Some l ->
   (exists l', ks_lock y = Some l' /\ l_ts (ll_rec l') = l_ts (ll_rec l)) \/
   (ks_lock y = None /\ exists r, In r (ks_recs y) /\ lr_start r = l_ts (ll_rec l) /\
-                                 (lab = KRollback (l_ts (ll_rec l)) \/ exists cv, lab = KCommit (l_ts (ll_rec l)) cv)).
+                                 (lab = KRollback (l_ts (ll_rec l)) \/ (exists cv, lab = KCommit (l_ts (ll_rec l)) cv) \/
+                                  lab = KFinish (l_ts (ll_rec l)))).
 Proof.
   intros T Hl.
-  destruct T as [ks primary start ttl mc m ks' Hp | ks k l0 cv ks' Hl0 Hle Hc | ks start | ks l0 mc Hl0].
+  destruct T as [ks primary start ttl mc m ks' Hp | ks k l0 cv ks' Hl0 Hle Hc | ks start | ks l0 mc Hl0 | ks l0 rf Hl0 Hff Hkf].
   - apply prewrite_key_success in Hp as (_ & _ & Hown & _ & l' & Hl' & Hts & _).
     left. exists l'. split; [exact Hl'|]. rewrite Hts. symmetry. now apply Hown.
   - rewrite Hl in Hl0. inversion Hl0; subst l0. unfold l_commit_key in Hc.
@@ -558,9 +573,8 @@ Proof.
     destruct (find_start (ks_recs ks) (l_ts (ll_rec l))) as [r0|] eqn:Hf.
     + destruct (op_eqb (lr_kind r0) OpRollback); [discriminate|].
       apply find_start_some in Hf as [H1 H2].
-      destruct (lr_ts r0 =? cv); inversion Hc; subst ks'.
-      * left. exists l. auto.
-      * right. split; [reflexivity|]. exists r0. cbn [ks_recs]. repeat split; eauto.
+      inversion Hc; subst ks'.
+      right. split; [reflexivity|]. exists r0. cbn [ks_recs]. repeat split; eauto.
     + inversion Hc; subst ks'. right. split; [reflexivity|]. eexists. cbn [ks_recs].
       split; [apply In_add_rec_new|]. split; [reflexivity | eauto].
   - unfold l_rollback_key. destruct (find_start (ks_recs ks) start) as [r0|] eqn:Hf.
@@ -570,6 +584,8 @@ Proof.
         assert (start = l_ts (ll_rec l)) by lia. subst start. auto.
       * left. exists l. auto.
   - rewrite Hl in Hl0. inversion Hl0; subst l0. left. eexists. split; [reflexivity|]. reflexivity.
+  - rewrite Hl in Hl0. inversion Hl0; subst l0. right. split; [reflexivity|].
+    apply find_start_some in Hff as [H1 H2]. exists rf. cbn [ks_recs]. repeat split; auto.
 Qed.
 
 (** a lock appears only through a prewrite of its transaction *)
@@ -578,19 +594,19 @@ Lemma lock_only_by_prewrite lab x y l' :
   (exists l, ks_lock x = Some l /\ l_ts (ll_rec l) = l_ts (ll_rec l')) \/ lab = KPrewrite (l_ts (ll_rec l')).
 Proof.
   intros T Hl'.
-  destruct T as [ks primary start ttl mc m ks' Hp | ks k l0 cv ks' Hl0 Hle Hc | ks start | ks l0 mc Hl0].
+  destruct T as [ks primary start ttl mc m ks' Hp | ks k l0 cv ks' Hl0 Hle Hc | ks start | ks l0 mc Hl0 | ks l0 rf Hl0 Hff Hkf].
   - apply prewrite_key_success in Hp as (_ & _ & _ & _ & l1 & Hl1 & Hts & _).
     rewrite Hl1 in Hl'. inversion Hl'; subst l1. right. now rewrite Hts.
   - unfold l_commit_key in Hc. destruct (cv <? l_min_commit (ll_rec l0)); [discriminate|].
     destruct (find_start (ks_recs ks) (l_ts (ll_rec l0))) as [r0|].
     + destruct (op_eqb (lr_kind r0) OpRollback); [discriminate|].
-      destruct (lr_ts r0 =? cv); inversion Hc; subst ks'; [|discriminate].
-      left. exists l'. auto.
+      inversion Hc; subst ks'. discriminate.
     + inversion Hc; subst ks'. discriminate.
   - unfold l_rollback_key in Hl'. destruct (find_start (ks_recs ks) start); [left; exists l'; auto|].
     cbn [ks_lock] in Hl'. unfold own_lock in Hl'. destruct (ks_lock ks) as [l|]; [|discriminate].
     destruct (l_ts (ll_rec l) =? start); [discriminate|]. left. exists l. split; congruence.
   - cbn [ks_lock] in Hl'. inversion Hl'; subst l'. left. exists l0. auto.
+  - cbn [ks_lock] in Hl'. discriminate.
 Qed.
 
 (** in every reachable state the transaction holding a lock has no record on the key yet
@@ -602,16 +618,16 @@ Proof. intros Hok. apply (J_lock_fresh _ (lrun_inv2 h Hok k)). Qed.
 
 (** ** C19: TTL and min-commit-ts *)
 Theorem ttl_rule s primary l lts cur caller rb :
-  get_lock s primary = Some l -> l_ts l = lts ->
+  get_lock s primary = Some l -> l_ts l = lts -> get_write_by_start_ts s primary lts = None ->
   (cr_action (snd (check_txn_status current s primary lts cur caller rb)) = ActTTLExpireRollback <->
    l_ttl l <> 0 /\ wrap64 (l_ts l + l_ttl l) <= cur).
 Proof.
-  intros Hl Hts. unfold check_txn_status. rewrite Hl.
-  assert (E : negb (l_ts l =? lts) = false) by (apply negb_false_iff; lia). rewrite E.
+  intros Hl Hts Hnw. unfold check_txn_status. rewrite Hl.
+  assert (E : negb (l_ts l =? lts) = false) by (apply negb_false_iff; lia). rewrite E, Hnw.
   unfold is_lock_expired. destruct (l_ttl l =? 0) eqn:Ht.
   - destruct ((0 <? caller) && (l_min_commit l <? wrap64 (caller + 1))); cbn; split; try discriminate; lia.
   - destruct (wrap64 (l_ts l + l_ttl l) <=? cur) eqn:Hc.
-    + unfold rollback_key. destruct (get_write_by_start_ts s primary lts); cbn; split; auto; lia.
+    + unfold rollback_key. rewrite Hnw. cbn. split; auto; lia.
     + destruct ((0 <? caller) && (l_min_commit l <? wrap64 (caller + 1))); cbn; split; try discriminate; lia.
 Qed.
 
@@ -623,12 +639,12 @@ Theorem ttl_rollback_effect h primary l lts cur caller rb :
   ks_lock (ls_at a' primary) = None /\ rolled_back (ls_at a' primary) lts.
 Proof.
   intros Hok Hl Hts Hexp a'. unfold a', l_check. rewrite Hl.
-  assert (E : negb (l_ts (ll_rec l) =? lts) = false) by (apply negb_false_iff; lia). rewrite E, Hexp.
-  cbn [fst]. rewrite ls_at_lupd, bytes_eqb_refl. unfold l_rollback_key.
+  assert (E : negb (l_ts (ll_rec l) =? lts) = false) by (apply negb_false_iff; lia). rewrite E.
   destruct (find_start (ks_recs (ls_at (lrun h) primary)) lts) as [r|] eqn:Hf.
   - exfalso. apply find_start_some in Hf as [H1 H2].
     apply (J_lock_fresh _ (lrun_inv2 h Hok primary) l r Hl H1). lia.
-  - cbn [ks_lock ks_recs]. unfold own_lock. rewrite Hl.
+  - rewrite Hexp. cbn [fst]. rewrite ls_at_lupd, bytes_eqb_refl. unfold l_rollback_key. rewrite Hf.
+    cbn [ks_lock ks_recs]. unfold own_lock. rewrite Hl.
     assert (E2 : (l_ts (ll_rec l) =? lts) = true) by lia. rewrite E2. split; [reflexivity|].
     eexists. split; [apply In_add_rec_new|]. auto.
 Qed.
@@ -643,14 +659,15 @@ Proof.
 Qed.
 
 Theorem min_commit_push s primary l lts cur caller rb :
-  get_lock s primary = Some l -> l_ts l = lts -> is_lock_expired l cur = false ->
+  get_lock s primary = Some l -> l_ts l = lts -> get_write_by_start_ts s primary lts = None ->
+  is_lock_expired l cur = false ->
   0 < caller -> l_min_commit l < wrap64 (caller + 1) ->
   let '(s', r) := check_txn_status current s primary lts cur caller rb in
   cr_action r = ActMinCommitPushed /\
   exists l', get_lock s' primary = Some l' /\ l_ts l' = l_ts l /\ l_min_commit l' = wrap64 (caller + 1).
 Proof.
-  intros Hl Hts Hexp Hc Hm. unfold check_txn_status. rewrite Hl.
-  assert (E : negb (l_ts l =? lts) = false) by (apply negb_false_iff; lia). rewrite E, Hexp.
+  intros Hl Hts Hnw Hexp Hc Hm. unfold check_txn_status. rewrite Hl.
+  assert (E : negb (l_ts l =? lts) = false) by (apply negb_false_iff; lia). rewrite E, Hnw, Hexp.
   assert (E2 : (0 <? caller) && (l_min_commit l <? wrap64 (caller + 1)) = true) by lia. rewrite E2.
   split; [reflexivity|]. eexists. split; [apply get_lock_put_lock|]. split; reflexivity.
 Qed.
